@@ -39,6 +39,7 @@ def _cname(c):
 class GenDrive(RuleAnalysis):
     """fact = (gens: tuple[(var, state)], action: 'none'|'fresh'|'used', tmo: 'none'|'fresh'|'stale'|'used')"""
     tokens = ("StopAsyncIteration", "Exception", CANCELLED, "BaseException")
+    inline_helpers = True  # a part of the driving loop extracted into a private coroutine (namesake arguments) is read in place
 
     def __init__(self, engine, gen_vars: set[str], action_var: str | None, timeout_var: str | None):
         super().__init__(engine)
